@@ -243,7 +243,10 @@ func (c *Conn) Close() error {
 			c.inbox[i].buffered = true
 		}
 	}
-	c.peer.peerGone = true
+	if !c.blackhole {
+		// on a dead path the FIN / RST never reaches the peer: it keeps its end until its own timers notice
+		c.peer.peerGone = true
+	}
 	return nil
 }
 
